@@ -321,15 +321,18 @@ inline bool exec(Env& e, const Op& op) {
   } else if (n == "refinelen") {
     if (needM()) {
       const Manifold& a = e.m(A(0));
-      if (a.NumTri() > (size_t)A(2, 20000))
+      const double len = U(A(1), .08, .4);
+      const double area = a.SurfaceArea();
+      // expected triangle count ~ area / len^2; keep the workload bounded
+      if (a.NumTri() > 20000 || !(area / (len * len) < 60000))
         e.note = "skipped:size";
       else
-        e.pushM(a.RefineToLength(U(A(1), .08, .4)));
+        e.pushM(a.RefineToLength(len));
     }
   } else if (n == "refinetol") {
     if (needM()) {
       const Manifold& a = e.m(A(0));
-      if (a.NumTri() > (size_t)A(2, 20000))
+      if (a.NumTri() > 5000 || !(a.SurfaceArea() < 50))
         e.note = "skipped:size";
       else
         e.pushM(a.RefineToTolerance(U(A(1), .002, .05)));
